@@ -7,6 +7,7 @@ import (
 	"os"
 	"os/exec"
 	"path/filepath"
+	"regexp"
 	"runtime"
 	"sort"
 	"strings"
@@ -202,10 +203,7 @@ func TestWorker(t *testing.T) {
 	}
 	t0 := time.Now()
 	wo := &WorkerOut{Fired: map[string]int{}, Probes: map[string]int{}, Shapes: map[string]int{}, Notes: map[string]int{}, SeedHash: map[string]uint64{}}
-	known := map[string]bool{}
-	for _, k := range job.Known {
-		known[k] = true
-	}
+	known := parseKnown(job.Known)
 	deadline := time.UnixMilli(job.Deadline)
 	k := job.Start
 	reported := map[string]bool{}
@@ -274,7 +272,7 @@ func TestWorker(t *testing.T) {
 				f := Finding{Seed: seed, Oracle: v.Oracle, Finger: v.Finger, Detail: v.Detail, Size0: c.Size()}
 				mc := c
 				budget := 25 * time.Second
-				if known[v.Finger] {
+				if _, ok := known.match(v.Finger); ok {
 					budget = 2 * time.Second
 				}
 				mc, f.Runs = Shrink(t, c, v.Finger, budget, 1500)
@@ -385,27 +383,87 @@ type knownFile struct {
 		Status   string `json:"status"` // "open" or "fixed"
 		Property string `json:"property"`
 		Finger   string `json:"fingerprint"`
+		FingerRe string `json:"fingerprint_regex,omitempty"`
 		What     string `json:"what"`
 		Commit   string `json:"commit,omitempty"`
 	} `json:"findings"`
 }
 
-func loadKnown(prop string) map[string]string {
-	m := map[string]string{}
+// knownSet matches violation fingerprints against the open known findings of
+// a property (exact fingerprint or regular expression).
+type knownSet struct {
+	exact map[string]string
+	res   []*regexp.Regexp
+	what  []string
+	srcs  []string
+}
+
+func (k *knownSet) match(finger string) (string, bool) {
+	if w, ok := k.exact[finger]; ok {
+		return w, true
+	}
+	for i, re := range k.res {
+		if re.MatchString(finger) {
+			return k.what[i], true
+		}
+	}
+	return "", false
+}
+
+func (k *knownSet) list() []string {
+	var out []string
+	for f := range k.exact {
+		out = append(out, "="+f)
+	}
+	for _, s := range k.srcs {
+		out = append(out, "~"+s)
+	}
+	sort.Strings(out)
+	return out
+}
+
+func parseKnown(list []string) *knownSet {
+	k := &knownSet{exact: map[string]string{}}
+	for _, e := range list {
+		if len(e) < 2 {
+			continue
+		}
+		if e[0] == '=' {
+			k.exact[e[1:]] = e[1:]
+		} else if re, err := regexp.Compile(e[1:]); err == nil {
+			k.res = append(k.res, re)
+			k.what = append(k.what, e[1:])
+			k.srcs = append(k.srcs, e[1:])
+		}
+	}
+	return k
+}
+
+func loadKnown(prop string) *knownSet {
+	k := &knownSet{exact: map[string]string{}}
 	b, err := os.ReadFile(filepath.Join(verifDir, "known_findings.json"))
 	if err != nil {
-		return m
+		return k
 	}
 	var kf knownFile
 	if json.Unmarshal(b, &kf) != nil {
-		return m
+		return k
 	}
 	for _, f := range kf.Findings {
-		if f.Status == "open" && f.Property == prop {
-			m[f.Finger] = f.What
+		if f.Status != "open" || f.Property != prop {
+			continue
+		}
+		if f.FingerRe != "" {
+			if re, err := regexp.Compile(f.FingerRe); err == nil {
+				k.res = append(k.res, re)
+				k.what = append(k.what, f.What)
+				k.srcs = append(k.srcs, f.FingerRe)
+			}
+		} else {
+			k.exact[f.Finger] = f.What
 		}
 	}
-	return m
+	return k
 }
 
 // ---- driver ----
@@ -463,11 +521,7 @@ func drive(prop string) int {
 	t0 := time.Now()
 	deadline := t0.Add(time.Duration(budget) * time.Second)
 	knownMap := loadKnown(prop)
-	var knownList []string
-	for k := range knownMap {
-		knownList = append(knownList, k)
-	}
-	sort.Strings(knownList)
+	knownList := knownMap.list()
 	base := seed * 1000003
 	tmp, err := os.MkdirTemp("", "verif-run-")
 	if err != nil {
@@ -508,7 +562,7 @@ func drive(prop string) int {
 				}
 				merge(agg, wo)
 				for _, f := range wo.Findings {
-					if _, ok := knownMap[f.Finger]; !ok {
+					if _, ok := knownMap.match(f.Finger); !ok {
 						stop = true // an unknown violation: stop exploring, report
 					}
 				}
@@ -571,9 +625,9 @@ func drive(prop string) int {
 	sort.Slice(agg.Findings, func(i, j int) bool { return agg.Findings[i].Seed < agg.Findings[j].Seed })
 	seenFinger := map[string]bool{}
 	for _, f := range agg.Findings {
-		if what, ok := knownMap[f.Finger]; ok {
-			if !seenKnown[f.Finger] {
-				seenKnown[f.Finger] = true
+		if what, ok := knownMap.match(f.Finger); ok {
+			if !seenKnown[what] {
+				seenKnown[what] = true
 				lines = append(lines, fmt.Sprintf("KNOWN-FINDING: property=%s %s", prop, what))
 			}
 			continue
